@@ -167,6 +167,19 @@ func (k *keyManagementContext) checkMessageCounter(message dataMsg) error {
 	return nil
 }
 
+// retireAllMACKeys returns copies of all MAC keys that await disclosure: the ones
+// already queued and the receiving keys recorded for the current key pairs
+func (k *keyManagementContext) retireAllMACKeys() []macKey {
+	var ret []macKey
+	for _, m := range k.oldMACKeys {
+		ret = append(ret, append(macKey{}, m...))
+	}
+	for _, u := range k.macKeyHistory.items {
+		ret = append(ret, append(macKey{}, u.receivingKey...))
+	}
+	return ret
+}
+
 func (k *keyManagementContext) revealMACKeys() []macKey {
 	ret := k.oldMACKeys
 	k.oldMACKeys = []macKey{}
